@@ -23,16 +23,28 @@ package proxy
 //@   ensures int(result[2]) == hexc(int(n) / 4096) && int(result[3]) == hexc((int(n) / 256) % 16)
 //@   ensures int(result[4]) == hexc((int(n) / 16) % 16) && int(result[5]) == hexc(int(n) % 16)
 //@
+//@ // decimal value of the first k characters of s (digits only)
+//@ spec fun decVal(s string, k int) int decreases k = k <= 0 ? 0 : decVal(s, k-1) * 10 + (int(s[k-1]) - 48)
+//@ // value of the digits written so far into the 11-byte scratch buffer (positions pos..10), by place
+//@ spec fun dg(buf [11]byte, q int, pos int) int = q >= pos ? int(buf[q]) - 48 : 0
+//@ spec fun bufVal(buf [11]byte, pos int) int = dg(buf, 0, pos) * 10000000000 + dg(buf, 1, pos) * 1000000000 + dg(buf, 2, pos) * 100000000 + dg(buf, 3, pos) * 10000000 + dg(buf, 4, pos) * 1000000 + dg(buf, 5, pos) * 100000 + dg(buf, 6, pos) * 10000 + dg(buf, 7, pos) * 1000 + dg(buf, 8, pos) * 100 + dg(buf, 9, pos) * 10 + dg(buf, 10, pos)
+//@
 //@ func i32toa
 //@   props C20
 //@   ensures nopanic
 //@   ensures 1 <= len(result) && len(result) <= 11
+//@   // the result is the decimal rendering strconv.Itoa would give: an optional '-', digits only, no leading zero,
+//@   // and the digits denote |n|
 //@   ensures n < 0 ==> result[0] == '-'
-//@   ensures n >= 0 ==> '0' <= result[0] && result[0] <= '9'
-//@   ensures result[len(result)-1] == '0' + abs(int(n)) % 10
+//@   ensures forall k int :: (n < 0 ? 1 : 0) <= k && k < len(result) ==> '0' <= result[k] && result[k] <= '9'
+//@   ensures n >= 0 ==> decVal(result, len(result)) == int(n)
+//@   ensures n < 0 ==> decVal(result[1:], len(result) - 1) == 0 - int(n)
+//@   ensures n != 0 ==> result[n < 0 ? 1 : 0] != '0'
+//@   ensures n == 0 ==> len(result) == 1
+//@   loop 1 split pos in 1..11
 //@   loop 1 invariant 1 <= pos && pos <= 11 && i >= 0 && i < p10(pos-1) && (pos < 11 ==> i > 0) && (signed <==> n < 0)
-//@   loop 1 invariant pos < 11 ==> buf[10] == '0' + abs(int(n)) % 10
-//@   loop 1 invariant pos == 11 ==> i == abs(int(n))
+//@   loop 1 invariant forall q int :: pos <= q && q < 11 ==> 48 <= buf[q] && buf[q] <= 57
+//@   loop 1 invariant abs(int(n)) == i * p10(11 - pos) + bufVal(buf, pos)
 //@   loop 1 decreases pos
 //@
 //@ // ---- request path: ordering of routing, access control, authentication and upstream contact ------
